@@ -512,8 +512,10 @@ example : (fromOrigins obsOrigins (inferDh (-96 / 10, 10) (-95 / 10, 10)) none (
 -- HISTORICAL witness (code before d4a1abe, `inferDhFloat`): the float difference −9.5 − (−9.6) = 0.09999999999999964 (17 decimals)
 -- sent `cleaner_range` down its fallback path with scale = 1/dh; every edge was displaced by ~3·10^-14, the region's own origin
 -- −9.6 lay below xs[0] and was reported outside
-example : Soft64.fl64 (-96 / 10) < ((fromOrigins obsOrigins (inferDhFloat obsOrigins) none (1, 1, 17)).xs.headD 0) ∧
-    binF (fromOrigins obsOrigins (inferDhFloat obsOrigins) none (1, 1, 17)).xs.toArray (Soft64.fl64 (-96 / 10)) = -1 := by
+-- (`fromOriginsOld`: with `cleaner_range` as it was before fix D49 — the repaired fallback no longer moves the start, see
+-- Properties/C02_Repr.lean `fallback_first_edge`; with it even the noisy spacing would leave the origin inside)
+example : Soft64.fl64 (-96 / 10) < ((fromOriginsOld obsOrigins (inferDhFloat obsOrigins) none (1, 1, 17)).xs.headD 0) ∧
+    binF (fromOriginsOld obsOrigins (inferDhFloat obsOrigins) none (1, 1, 17)).xs.toArray (Soft64.fl64 (-96 / 10)) = -1 := by
   decide +kernel
 
 end Region
